@@ -605,6 +605,16 @@ package yang
 //@   loop 1
 //@     invariant forall j int :: 0 <= j && j < _k ==> mod.Import[j].Prefix.Name != prefix
 //
+// asRangeInt (C10, C15, C01): the value in the range asked for, or an error and
+// nothing -- a caller that goes on with the number after an error (the
+// fraction-digits of a decimal64 are used that way) goes on with 0, not with a
+// value it was told is out of range.
+//@ func (*Value).asRangeInt props C01 C10 C15
+//@   ensures[the-value-lies-in-the-range-asked-for-or-nothing-is-handed-out] (result1 == nil ==> min <= result && result <= max) && (result1 != nil ==> result == 0)
+//@   ensures  result1 == nil ==> s != nil && result == litval(s.Name)
+//@   modifies nothing
+//@   safe
+//
 // errorSort (C05: error lists come back ordered, duplicates removed): after the
 // sort every error is either kept or deeply equal to the one kept last -- none is
 // lost otherwise -- and what has been kept is not touched again; a list of one
